@@ -63,17 +63,26 @@ func pointOnAreaSurface(poly Polygon) (Point, float64) {
 	}
 	midY := mid.Y
 
-	// Adjust mid-y value if a control point has the same Y.
+	// Adjust mid-y value if a control point has the same Y. A control point
+	// whose Y differs from the mid-y value only by rounding (e.g. the centre
+	// vertex of a symmetric polygon after a rotation) counts as having the
+	// same Y: the bisector would otherwise pass within rounding distance of
+	// it, and its crossings with the two adjacent edges could not be told
+	// apart.
 	var midYMatchesNode bool
 	nextY := math.Inf(+1)
+	tol := 0.0
+	if envMin, envMax, ok := env.MinMaxXYs(); ok {
+		tol = 1e-9 * (envMax.Y - envMin.Y)
+	}
 	for _, ring := range poly.rings {
 		seq := ring.Coordinates()
 		for i := 0; i < seq.Length(); i++ {
 			xy := seq.GetXY(i)
-			if xy.Y == midY {
+			if math.Abs(xy.Y-midY) <= tol {
 				midYMatchesNode = true
 			}
-			if xy.Y < nextY && xy.Y > midY {
+			if xy.Y < nextY && xy.Y > midY+tol {
 				nextY = xy.Y
 			}
 		}
